@@ -314,8 +314,10 @@ func (e *c06Env) line(op *c06Op, a, b, o c06M, eff bool) string {
 		args = fmt.Sprintf("%c %s %s %d", op.alias, a.tok(), o.tok(), len(op.vvals))
 	case "mulelt":
 		args = fmt.Sprintf("%s %s %s %s", b2s(op.relin), a.tok(), b.tok(), o.tok())
-	case "mulsc", "mtasc":
+	case "mulsc":
 		args = fmt.Sprintf("%s %s %s %s", a.tok(), o.tok(), c06Dy(op.re), c06Dy(op.im))
+	case "mtasc":
+		args = fmt.Sprintf("%c %s %s %s %s", op.alias, a.tok(), o.tok(), c06Dy(op.re), c06Dy(op.im))
 	case "mtaelt":
 		args = fmt.Sprintf("%s %c %s %s %s", b2s(op.relin), op.alias, a.tok(), b.tok(), o.tok())
 	case "rescale":
@@ -494,7 +496,7 @@ func c06At(v []complex128, i int) complex128 { return v[i%len(v)] }
 
 // ---------- scalars and vectors of every kind ----------
 
-var c06ScalarKinds = []string{"complex128", "float64", "int", "int64", "uint64", "bigint", "bigfloat", "bigcomplex", "float64int", "complexint"}
+var c06ScalarKinds = []string{"complex128", "float64", "int", "int64", "uint", "uint64", "bigint", "bigfloat", "bigcomplex", "float64int", "complexint"}
 
 func (e *c06Env) pickScalar(c *Ctx, op *c06Op) {
 	k := c06ScalarKinds[c.rng.Intn(len(c06ScalarKinds))]
@@ -525,6 +527,10 @@ func (e *c06Env) pickScalar(c *Ctx, op *c06Op) {
 		im.SetFloat64(imag(v))
 	case "int":
 		v := c.rng.Intn(9) - 4
+		op.scalar = v
+		re.SetInt64(int64(v))
+	case "uint":
+		v := uint(c.rng.Intn(5))
 		op.scalar = v
 		re.SetInt64(int64(v))
 	case "int64":
@@ -771,12 +777,6 @@ func (e *c06Env) step(c *Ctx, regs []*c06Reg, prog string) {
 		op.n = []int{0, 1, 2, -1, 3, 1 << am.logSlots}[c.rng.Intn(6)]
 	}
 	// the effect cannot be read when the receiver keeps limbs above the evaluation level
-	if op.kind == "mtasc" && om.level > am.level {
-		op.effOff = true
-	}
-	if op.kind == "mtavec" && om.level > am.level {
-		op.effOff = true
-	}
 	if mta && op.alias != 'f' {
 		op.effOff = true
 	}
@@ -824,16 +824,6 @@ func (e *c06Env) step(c *Ctx, regs []*c06Reg, prog string) {
 		d = "panic"
 	}
 	pkey := "C06/panic:" + op.kind
-	evalLevel := am.level
-	if op.alias == 'f' && !op.useNew && om.level < evalLevel {
-		evalLevel = om.level
-	}
-	if op.kind == "setscale" || op.kind == "rescaleto" {
-		pkey = "C06/panic:rescaleto-consumes-all-levels"
-	}
-	if lc == 2 && evalLevel == 0 && (op.kind == "mulsc" || op.kind == "mulvec" || op.kind == "mtasc" || op.kind == "mtavec" || op.kind == "setscale" || op.kind == "mtaelt") {
-		pkey = "C06/panic:prec128-level0-constant-scaling"
-	}
 	c.Probe("errors_not_panics", args, pkey, d)
 	// operands that are not the receiver must be unchanged
 	if !panicked {
@@ -1018,10 +1008,6 @@ func c06Ratio(a, b rlwe.Scale) (ratio float64, isInt bool) {
 // diag names the known defect class a failing precision probe belongs to ("" = none known).
 func (e *c06Env) diag(op *c06Op, am, bm, om c06M) string {
 	switch op.kind {
-	case "addsc":
-		if op.alias == 'f' && om.scale.Cmp(am.scale) != 0 {
-			return "addsc-receiver-scale-not-set"
-		}
 	case "addelt":
 		if c := am.scale.Cmp(bm.scale); c != 0 {
 			hi, lo := am.scale, bm.scale
@@ -1045,20 +1031,6 @@ func (e *c06Env) diag(op *c06Op, am, bm, om c06M) string {
 			if !isInt {
 				return "mta-scaleup-noninteger-ratio"
 			}
-		}
-	case "mtasc":
-		if op.alias != 'f' {
-			return "mtasc-receiver-is-operand"
-		}
-		if om.level > am.level {
-			return "mtasc-receiver-level-kept"
-		}
-		if om.degree > am.degree {
-			return "mta-receiver-degree-cut"
-		}
-	case "mtavec":
-		if om.degree > am.degree {
-			return "mta-receiver-degree-cut"
 		}
 	case "scaleup":
 		if !op.dy.Value.IsInt() {
@@ -1161,6 +1133,49 @@ func c06Malformed(c *Ctx, envs []*c06Env) {
 				d = "panic on documented operand type uint"
 			}
 			c.Probe("errors_not_panics", fmt.Sprintf("%s %s uint", e.tag, k), "C06/panic:uint-operand", d)
+		}
+		// DropLevel by more than the level: no error is possible (no error return); the result must at least be a ciphertext
+		{
+			r := e.fresh(c, 1, e.logMax, ds)
+			out := Try(func() string {
+				e.eval.DropLevel(r.ct, 2)
+				if r.ct.Level() < 0 {
+					return "level<0"
+				}
+				return ""
+			})
+			if out == "panic" {
+				out = ""
+			}
+			c.Probe("droplevel_state", fmt.Sprintf("%s level=1 levels=2", e.tag), "C06/droplevel-below-zero", out)
+		}
+		// MulThenAdd with op0 of degree 0 (a plaintext wrapped in a Ciphertext) and op1 a ciphertext
+		{
+			lvl := e.params.MaxLevel()
+			vals := e.randVals(c, 1<<e.logMax, 1)
+			pt := ckks.NewPlaintext(e.params, lvl)
+			if err := e.ecd.Encode(vals, pt); err != nil {
+				panic(err)
+			}
+			op0 := rlwe.NewCiphertext(e.params, 0, lvl)
+			op0.Value[0].CopyLvl(lvl, pt.Value)
+			*op0.MetaData = *pt.MetaData
+			b := e.fresh(c, lvl, e.logMax, ds)
+			o := e.fresh(c, lvl, e.logMax, ds.Mul(ds))
+			oldO := append([]complex128{}, o.want...)
+			d := Try(func() string {
+				if err := e.eval.MulThenAdd(op0, b.ct, o.ct); err != nil {
+					return "" // an error is acceptable
+				}
+				have := e.decode(o.ct)
+				for i := range have {
+					if cmplx.Abs(have[i]-(oldO[i]+vals[i]*b.want[i])) > 1e-3 {
+						return fmt.Sprintf("slot=%d", i)
+					}
+				}
+				return ""
+			})
+			c.Probe("mta_op0_degree0", e.tag, "C06/mta-op0-degree0-ignores-c1", d)
 		}
 		// ties at the boundaries
 		for lvl := 0; lvl <= e.params.MaxLevel(); lvl++ {
